@@ -1200,6 +1200,44 @@ pub fn run_case(c: &Value, seed: u64, idx: u64) -> (String, Option<String>) {
                 };
                 ("nopanic".into(), extra)
             },
+            "alloc_bound" => {
+                // a batch of honest proofs plus ONE decoded proof with thousands of attached rounds: whatever the verifier reserves
+                // before it refuses the batch stays in proportion to the bytes it was handed
+                let (nmem, rounds) = (u("members"), u("rounds"));
+                let params = RangeParameters::<P>::init(8, 1, pedersen_std(1)).unwrap();
+                let mut stmts = Vec::with_capacity(nmem + 1);
+                let mut proofs = Vec::with_capacity(nmem + 1);
+                let mut input_bytes = 0usize;
+                for i in 0..nmem + 1 {
+                    let bl = vec![hash_scalar(&[b"ab", &(i as u64).to_le_bytes()])];
+                    let cm = params.pc_gens().commit(&Scalar::from(7u64), &bl).unwrap();
+                    let st = RangeStatement::init(params.clone(), vec![cm], vec![None], None).unwrap();
+                    let w = RangeWitness::init(vec![CommitmentOpening::new(7, bl)]).unwrap();
+                    let mut rng = ChaCha12Rng::seed_from_u64(seed ^ i as u64);
+                    let mut bytes = RangeProof::<P>::prove_with_rng(&mut Transcript::new(b"ab"), &st, &w, &mut rng).unwrap().to_bytes();
+                    if i == nmem / 2 {
+                        let pair: Vec<u8> = bytes[bytes.len() - 64..].to_vec();
+                        for _ in 0..rounds {
+                            bytes.extend_from_slice(&pair);
+                        }
+                    }
+                    input_bytes += bytes.len();
+                    proofs.push(RangeProof::<P>::from_bytes(&bytes).unwrap());
+                    stmts.push(st);
+                }
+                let mut trs = vec![Transcript::new(b"ab"); nmem + 1];
+                crate::alloc::reset_max_request();
+                let r = RangeProof::<P>::verify_batch(&mut trs, &stmts, &proofs, VerifyAction::VerifyOnly);
+                let mx = crate::alloc::max_request();
+                let extra = if r.is_ok() {
+                    Some("a batch holding a proof with surplus rounds was accepted".to_string())
+                } else if mx > 16 * input_bytes + (1 << 20) {
+                    Some(format!("the verifier asked the allocator for {} bytes at once while holding {} bytes of input ({} members, one with {} surplus rounds)", mx, input_bytes, nmem + 1, rounds))
+                } else {
+                    None
+                };
+                ("nopanic".into(), extra)
+            },
             "decode_raw" => {
                 // uniformly random bytes of the given length: a value or an error, and a value re-encodes to its input
                 let len = u("len");
